@@ -271,7 +271,7 @@ inline void buildDevs(const Seed &seed, SeedInfo &si)
                 }
             }
             for (auto *ns : NS_MENU) {
-                if (*ns) { Dev d{E_NS_ELEM, 'b'}; d.node = e->id; d.val = ns; d.reduced = std::string(ns) == NS10 || std::string(ns) == NSMATH; push(d); }
+                if (*ns) { Dev d{E_NS_ELEM, 'b'}; d.node = e->id; d.val = ns; d.reduced = std::string(ns) == NS10; push(d); }
                 { Dev d{E_NS_TREE, 'b'}; d.node = e->id; d.val = ns; d.reduced = !*ns; push(d); }
             }
             // ---------------- (c) insertions at each child position
@@ -284,7 +284,7 @@ inline void buildDevs(const Seed &seed, SeedInfo &si)
                     for (size_t v = 0; v < sizeof INS / sizeof *INS; ++v) {
                         Dev d{C_INS, 'c'}; d.node = e->id; d.pos = pos; d.val = INS[v];
                         if (judge && !math && v == 0) d.why = "text-in-cellml-element:" + parentLocal[ei] + "/" + el;
-                        d.reduced = (v == 0 || v == 7 || v == 10) && (pos == 0 || pos == nkids);
+                        d.reduced = (v == 0 || v == 7) && pos == 0;
                         push(d);
                     }
                 }
